@@ -130,6 +130,8 @@ theorem wf_say {s : Srv} (h : SrvWF s) (n t x : Str) : SrvWF (s.step (.say n t x
       · exact wf_congr h rfl rfl rfl rfl
       · exact h
 
+theorem wf_isupport {s : Srv} (h : SrvWF s) : SrvWF (s.step .isupport).1 := h
+
 theorem wf_names {s : Srv} (h : SrvWF s) (c : Str) : SrvWF (s.step (.names c)).1 := by
   simp only [Srv.step]
   split
@@ -665,10 +667,8 @@ theorem wf_reconnect {s : Srv} (h : SrvWF s) : SrvWF (s.step .reconnect).1 := by
         Option.isNone_iff_eq_none] at hc
       rw [Srv.user_eq] at hc
       have hv := h.users _ _ hu
-      have hcfg := h.cfg
-      unfold Cfg.valid at hcfg
-      simp only [Bool.and_eq_true] at hcfg
-      have hvn : validNick s.cfg.botNick = true := hcfg.1.1.1.1
+      have hcfg := cfgOK_of_valid h.cfg
+      have hvn : validNick s.cfg.botNick = true := hcfg.nick
       have hde : (s.dropEverywhere s.botKey).users = s.users := rfl
       have husers : ∀ k, aget (aset (adel (s.dropEverywhere s.botKey).users s.botKey) (lower s.cfg.botNick) { u with nick := s.cfg.botNick }) k =
           if lower s.cfg.botNick = k then some { u with nick := s.cfg.botNick } else if s.botKey = k then none else aget s.users k := by
@@ -711,6 +711,7 @@ theorem wf_step {s : Srv} (h : SrvWF s) (a : Act) (ha : a.ok) : SrvWF (s.step a)
   | topic src c t => exact wf_topic h src c t
   | chghost n i ho => exact wf_chghost h n i ho
   | say n t x => exact wf_say h n t x
+  | isupport => exact wf_isupport h
   | names c => exact wf_names h c
   | who c => exact wf_who h c
   | modeis c => exact wf_modeis h c
@@ -719,16 +720,14 @@ theorem wf_step {s : Srv} (h : SrvWF s) (a : Act) (ha : a.ok) : SrvWF (s.step a)
   | reconnect => exact wf_reconnect h
 
 theorem wf_init (cfg : Cfg) (hv : cfg.valid = true) : SrvWF (Srv.init cfg) := by
-  have hcfg := hv
-  unfold Cfg.valid at hcfg
-  simp only [Bool.and_eq_true] at hcfg
+  have hcfg := cfgOK_of_valid hv
   refine ⟨hv, ?_, ?_, by simp [Srv.init, akeys], ?_⟩
   · intro k u hg
     simp only [Srv.init, aget_cons, aget_nil] at hg
     split at hg
     · rename_i hk
       cases hg
-      exact ⟨hk, hcfg.1.1.1.1, hcfg.1.1.1.2, hcfg.1.1.2⟩
+      exact ⟨hk, hcfg.nick, hcfg.ident, hcfg.host⟩
     · cases hg
   · exact ⟨⟨cfg.botNick, cfg.botIdent, cfg.botHost⟩, by simp [Srv.init, aget_cons], rfl⟩
   · intro k sc hg
